@@ -33,13 +33,24 @@ def filt_wrap(repo_src, dst):
     f.files = {'gen_nttw.c': txt}
     return f
 GROUPS = {'iters': Group('iters', filt, c=['props/C03/contracts_iters.c'], repo_cpp=[])}
+def filt_ext(repo_src, dst):
+    f = extract.Filter(repo_src, dst)
+    f.check_macros()
+    txt = cify.cify(f, N, 'NTT_Goldilocks::extendPol', 'NTT_Goldilocks_extendPol', [('computeR', 'NTT_Goldilocks_computeR'), ('INTT', 'NTT_Goldilocks_INTT')],
+                    extra_rules=[(r'NTT_Goldilocks ntt_extension\((.*)\);', r'vf_ext_ctor(\1);'), (r'delete\[\] (\w+);', r'vf_delete_arr(\1);'), (r'ntt_extension\.NTT\(', 'vf_ext_NTT(')])
+    for pat in ('vf_ext_ctor(', 'vf_ext_NTT(', 'NTT_Goldilocks_INTT(', 'NTT_Goldilocks_computeR('):
+        if pat not in txt:
+            raise extract.ExtractError('M2: extendPol: expected rewrite %r did not fire' % pat)
+    f.files = {'gen_ext.c': txt}
+    return f
+GROUPS['ext'] = Group('ext', filt_ext, c=['props/C03/contracts_ext.c'], repo_cpp=[])
 SHAPES = [(sz, nc) for sz in (1, 2, 4) for nc in (1, 2, 3, 4)] + [(0, 3), (4, 0)]
 for _sz, _nc in SHAPES:
     GROUPS['wrap_%d_%d' % (_sz, _nc)] = Group('wrap_%d_%d' % (_sz, _nc), filt_wrap, c=['props/C03/contracts_wrap.c'], defines=['VF_SIZE=%d' % _sz, 'VF_NCOLS=%d' % _nc], repo_cpp=[])
 CHK = ['--bounds-check', '--pointer-check', '--undefined-shift-check', '--signed-overflow-check', '--div-by-zero-check']
 UNITS = [
-    Unit('NTT_iters_schedule', 'iters', 'NTT_Goldilocks_NTT_iters', harness='hl_NTT_iters', light=True, checks=CHK, flags=['--unwind', '66', '--unwinding-assertions'],
-         loops='unwind 66 (pass loop <= 32 iterations, log2 <= 64: operand widths), unwinding assertions on', timeout=600,
+    Unit('NTT_iters_schedule', 'iters', 'NTT_Goldilocks_NTT_iters', harness='hl_NTT_iters', light=True, checks=CHK, flags=['--unwind', '33', '--unwinding-assertions'],
+         loops='unwind 33 (domainPow <= 30: pass loop and log2 loop at most 31 iterations), unwinding assertions on', timeout=600,
          functions=['NTT_Goldilocks::NTT_iters (src/%s) [C-ified; batch data path outlined into a ghost monitor]' % N]),
     Unit('log2', 'iters', 'NTT_Goldilocks_log2', harness='hl_log2', light=True, checks=CHK, flags=['--unwind', '66', '--unwinding-assertions'], loops='unwind 66',
          functions=['NTT_Goldilocks::log2 (src/ntt_goldilocks.hpp)']),
@@ -55,6 +66,8 @@ for _sz, _nc in SHAPES:
         UNITS.append(Unit('NTT_noop@%dx%d' % (_sz, _nc), 'wrap_%d_%d' % (_sz, _nc), 'NTT_Goldilocks_NTT', harness='hl_NTT_noop', light=True, checks=CHK, flags=['--unwind', '6', '--unwinding-assertions'], loops='unwind 6',
                           bounded='size = %d, ncols = %d' % (_sz, _nc), functions=['NTT_Goldilocks::NTT with size == 0 or ncols == 0 (src/%s)' % N]))
 UNITS.append(Unit('INTT_wrapper', 'wrap_2_3', 'NTT_Goldilocks_INTT', harness='hl_INTT', light=True, checks=CHK, functions=['NTT_Goldilocks::INTT (src/%s) [C-ified; NTT is a monitor]' % N]))
+UNITS.append(Unit('extendPol', 'ext', 'NTT_Goldilocks_extendPol', harness='hl_extendPol', light=True, checks=CHK + ['--memory-leak-check', '--no-malloc-may-fail'], timeout=600,
+                  functions=['NTT_Goldilocks::extendPol (src/%s) [C-ified; constructor / computeR / INTT / extension NTT are monitors; arbitrary prior object state under the invariant]' % N]))
 TRUSTED_BASE = ['M2 C-ification + outlining of the batch loop (rule checks the cut statement exists and the scheduling variables are still present)',
                 'the DFT equation itself is NOT decided by this check (see MANIFEST level_note)', 'CBMC, cadical']
 ASSUMPTIONS = ['object domain s <= 32, size = 2^domainPow with domainPow <= min(s, 30)']
